@@ -266,7 +266,8 @@ package document
 //@ ensures err == nil ==> forall s *SectionProperties :: {s.HeaderReferences} allocated(s) && old(isFirstSect(d.Body.Elements, s)) && old(hdrNone(s.HeaderReferences, string(headerType))) ==> len(s.HeaderReferences) == old(len(s.HeaderReferences)) + 1 && fresh(s.HeaderReferences[old(len(s.HeaderReferences))]) && (forall q int :: 0 <= q && q < old(len(s.HeaderReferences)) ==> s.HeaderReferences[q] == old(s.HeaderReferences[q])) && hdrOneAt(s.HeaderReferences, old(len(s.HeaderReferences)), string(headerType), s.HeaderReferences[old(len(s.HeaderReferences))].ID) && relResolves(d.documentRelationships.Relationships, s.HeaderReferences[old(len(s.HeaderReferences))].ID, "http://schemas.openxmlformats.org/officeDocument/2006/relationships/header", hfFile("header", headerType))
 // (c) existing reference of the kind (the first one, at k): same list of the same objects, that reference now resolves to the
 //     part's relationship, no other reference changed its id; if the kind was referenced at most once it still is, exactly once
-//@ ensures err == nil ==> forall s *SectionProperties, k int :: {s.HeaderReferences[k]} allocated(s) && old(isFirstSect(d.Body.Elements, s)) && old(hdrFirstAt(s.HeaderReferences, k, string(headerType))) ==> len(s.HeaderReferences) == old(len(s.HeaderReferences)) && (forall q int :: 0 <= q && q < len(s.HeaderReferences) ==> s.HeaderReferences[q] == old(s.HeaderReferences[q])) && relResolves(d.documentRelationships.Relationships, s.HeaderReferences[k].ID, "http://schemas.openxmlformats.org/officeDocument/2006/relationships/header", hfFile("header", headerType))
+//@ ensures err == nil ==> forall s *SectionProperties, k int :: {s.HeaderReferences[k]} allocated(s) && old(isFirstSect(d.Body.Elements, s)) && old(hdrFirstAt(s.HeaderReferences, k, string(headerType))) ==> s.HeaderReferences[k] == old(s.HeaderReferences[k]) && len(s.HeaderReferences) == old(len(s.HeaderReferences)) && (forall q int :: 0 <= q && q < len(s.HeaderReferences) ==> s.HeaderReferences[q] == old(s.HeaderReferences[q]))
+//@ ensures err == nil ==> forall s *SectionProperties, k int :: {s.HeaderReferences[k]} allocated(s) && old(isFirstSect(d.Body.Elements, s)) && old(hdrFirstAt(s.HeaderReferences, k, string(headerType))) ==> s.HeaderReferences[k] == old(s.HeaderReferences[k]) && relResolves(d.documentRelationships.Relationships, s.HeaderReferences[k].ID, "http://schemas.openxmlformats.org/officeDocument/2006/relationships/header", hfFile("header", headerType))
 //@ ensures err == nil ==> forall s *SectionProperties, k int :: {s.HeaderReferences[k]} allocated(s) && old(isFirstSect(d.Body.Elements, s)) && old(hdrFirstAt(s.HeaderReferences, k, string(headerType))) ==> s.HeaderReferences[k] == old(s.HeaderReferences[k]) && (forall r *HeaderFooterReference :: allocated(r) && r != old(s.HeaderReferences[k]) ==> r.ID == old(r.ID))
 //@ ensures err == nil ==> forall s *SectionProperties, k int :: {s.HeaderReferences[k]} allocated(s) && old(isFirstSect(d.Body.Elements, s)) && old(hdrFirstAt(s.HeaderReferences, k, string(headerType))) && old(hdrAtMostOne(s.HeaderReferences, string(headerType))) ==> hdrOneAt(s.HeaderReferences, k, string(headerType), s.HeaderReferences[k].ID)
 //@ ensures err == nil && (old(noSect(d.Body.Elements)) || (forall s *SectionProperties :: allocated(s) && old(isFirstSect(d.Body.Elements, s)) ==> old(hdrNone(s.HeaderReferences, string(headerType))))) ==> forall r *HeaderFooterReference :: allocated(r) ==> r.ID == old(r.ID)
@@ -317,7 +318,8 @@ package document
 //@ ensures err == nil ==> forall s *SectionProperties :: {s.FooterReferences} allocated(s) && old(isFirstSect(d.Body.Elements, s)) && old(ftrNone(s.FooterReferences, string(footerType))) ==> len(s.FooterReferences) == old(len(s.FooterReferences)) + 1 && fresh(s.FooterReferences[old(len(s.FooterReferences))]) && (forall q int :: 0 <= q && q < old(len(s.FooterReferences)) ==> s.FooterReferences[q] == old(s.FooterReferences[q])) && ftrOneAt(s.FooterReferences, old(len(s.FooterReferences)), string(footerType), s.FooterReferences[old(len(s.FooterReferences))].ID) && relResolves(d.documentRelationships.Relationships, s.FooterReferences[old(len(s.FooterReferences))].ID, "http://schemas.openxmlformats.org/officeDocument/2006/relationships/footer", hfFile("footer", footerType))
 // (c) existing reference of the kind (the first one, at k): same list of the same objects, that reference now resolves to the
 //     part's relationship, no other reference changed its id; if the kind was referenced at most once it still is, exactly once
-//@ ensures err == nil ==> forall s *SectionProperties, k int :: {s.FooterReferences[k]} allocated(s) && old(isFirstSect(d.Body.Elements, s)) && old(ftrFirstAt(s.FooterReferences, k, string(footerType))) ==> len(s.FooterReferences) == old(len(s.FooterReferences)) && (forall q int :: 0 <= q && q < len(s.FooterReferences) ==> s.FooterReferences[q] == old(s.FooterReferences[q])) && relResolves(d.documentRelationships.Relationships, s.FooterReferences[k].ID, "http://schemas.openxmlformats.org/officeDocument/2006/relationships/footer", hfFile("footer", footerType))
+//@ ensures err == nil ==> forall s *SectionProperties, k int :: {s.FooterReferences[k]} allocated(s) && old(isFirstSect(d.Body.Elements, s)) && old(ftrFirstAt(s.FooterReferences, k, string(footerType))) ==> s.FooterReferences[k] == old(s.FooterReferences[k]) && len(s.FooterReferences) == old(len(s.FooterReferences)) && (forall q int :: 0 <= q && q < len(s.FooterReferences) ==> s.FooterReferences[q] == old(s.FooterReferences[q]))
+//@ ensures err == nil ==> forall s *SectionProperties, k int :: {s.FooterReferences[k]} allocated(s) && old(isFirstSect(d.Body.Elements, s)) && old(ftrFirstAt(s.FooterReferences, k, string(footerType))) ==> s.FooterReferences[k] == old(s.FooterReferences[k]) && relResolves(d.documentRelationships.Relationships, s.FooterReferences[k].ID, "http://schemas.openxmlformats.org/officeDocument/2006/relationships/footer", hfFile("footer", footerType))
 //@ ensures err == nil ==> forall s *SectionProperties, k int :: {s.FooterReferences[k]} allocated(s) && old(isFirstSect(d.Body.Elements, s)) && old(ftrFirstAt(s.FooterReferences, k, string(footerType))) ==> s.FooterReferences[k] == old(s.FooterReferences[k]) && (forall r *FooterReference :: allocated(r) && r != old(s.FooterReferences[k]) ==> r.ID == old(r.ID))
 //@ ensures err == nil ==> forall s *SectionProperties, k int :: {s.FooterReferences[k]} allocated(s) && old(isFirstSect(d.Body.Elements, s)) && old(ftrFirstAt(s.FooterReferences, k, string(footerType))) && old(ftrAtMostOne(s.FooterReferences, string(footerType))) ==> ftrOneAt(s.FooterReferences, k, string(footerType), s.FooterReferences[k].ID)
 //@ ensures err == nil && (old(noSect(d.Body.Elements)) || (forall s *SectionProperties :: allocated(s) && old(isFirstSect(d.Body.Elements, s)) ==> old(ftrNone(s.FooterReferences, string(footerType))))) ==> forall r *FooterReference :: allocated(r) ==> r.ID == old(r.ID)
@@ -384,7 +386,8 @@ package document
 //@ ensures err == nil ==> forall s *SectionProperties :: {s.HeaderReferences} allocated(s) && old(isFirstSect(d.Body.Elements, s)) && old(hdrNone(s.HeaderReferences, string(headerType))) ==> len(s.HeaderReferences) == old(len(s.HeaderReferences)) + 1 && fresh(s.HeaderReferences[old(len(s.HeaderReferences))]) && (forall q int :: 0 <= q && q < old(len(s.HeaderReferences)) ==> s.HeaderReferences[q] == old(s.HeaderReferences[q])) && hdrOneAt(s.HeaderReferences, old(len(s.HeaderReferences)), string(headerType), s.HeaderReferences[old(len(s.HeaderReferences))].ID) && relResolves(d.documentRelationships.Relationships, s.HeaderReferences[old(len(s.HeaderReferences))].ID, "http://schemas.openxmlformats.org/officeDocument/2006/relationships/header", hfFile("header", headerType))
 // (c) existing reference of the kind (the first one, at k): same list of the same objects, that reference now resolves to the
 //     part's relationship, no other reference changed its id; if the kind was referenced at most once it still is, exactly once
-//@ ensures err == nil ==> forall s *SectionProperties, k int :: {s.HeaderReferences[k]} allocated(s) && old(isFirstSect(d.Body.Elements, s)) && old(hdrFirstAt(s.HeaderReferences, k, string(headerType))) ==> len(s.HeaderReferences) == old(len(s.HeaderReferences)) && (forall q int :: 0 <= q && q < len(s.HeaderReferences) ==> s.HeaderReferences[q] == old(s.HeaderReferences[q])) && relResolves(d.documentRelationships.Relationships, s.HeaderReferences[k].ID, "http://schemas.openxmlformats.org/officeDocument/2006/relationships/header", hfFile("header", headerType))
+//@ ensures err == nil ==> forall s *SectionProperties, k int :: {s.HeaderReferences[k]} allocated(s) && old(isFirstSect(d.Body.Elements, s)) && old(hdrFirstAt(s.HeaderReferences, k, string(headerType))) ==> s.HeaderReferences[k] == old(s.HeaderReferences[k]) && len(s.HeaderReferences) == old(len(s.HeaderReferences)) && (forall q int :: 0 <= q && q < len(s.HeaderReferences) ==> s.HeaderReferences[q] == old(s.HeaderReferences[q]))
+//@ ensures err == nil ==> forall s *SectionProperties, k int :: {s.HeaderReferences[k]} allocated(s) && old(isFirstSect(d.Body.Elements, s)) && old(hdrFirstAt(s.HeaderReferences, k, string(headerType))) ==> s.HeaderReferences[k] == old(s.HeaderReferences[k]) && relResolves(d.documentRelationships.Relationships, s.HeaderReferences[k].ID, "http://schemas.openxmlformats.org/officeDocument/2006/relationships/header", hfFile("header", headerType))
 //@ ensures err == nil ==> forall s *SectionProperties, k int :: {s.HeaderReferences[k]} allocated(s) && old(isFirstSect(d.Body.Elements, s)) && old(hdrFirstAt(s.HeaderReferences, k, string(headerType))) ==> s.HeaderReferences[k] == old(s.HeaderReferences[k]) && (forall r *HeaderFooterReference :: allocated(r) && r != old(s.HeaderReferences[k]) ==> r.ID == old(r.ID))
 //@ ensures err == nil ==> forall s *SectionProperties, k int :: {s.HeaderReferences[k]} allocated(s) && old(isFirstSect(d.Body.Elements, s)) && old(hdrFirstAt(s.HeaderReferences, k, string(headerType))) && old(hdrAtMostOne(s.HeaderReferences, string(headerType))) ==> hdrOneAt(s.HeaderReferences, k, string(headerType), s.HeaderReferences[k].ID)
 //@ ensures err == nil && (old(noSect(d.Body.Elements)) || (forall s *SectionProperties :: allocated(s) && old(isFirstSect(d.Body.Elements, s)) ==> old(hdrNone(s.HeaderReferences, string(headerType))))) ==> forall r *HeaderFooterReference :: allocated(r) ==> r.ID == old(r.ID)
@@ -451,7 +454,8 @@ package document
 //@ ensures err == nil ==> forall s *SectionProperties :: {s.FooterReferences} allocated(s) && old(isFirstSect(d.Body.Elements, s)) && old(ftrNone(s.FooterReferences, string(footerType))) ==> len(s.FooterReferences) == old(len(s.FooterReferences)) + 1 && fresh(s.FooterReferences[old(len(s.FooterReferences))]) && (forall q int :: 0 <= q && q < old(len(s.FooterReferences)) ==> s.FooterReferences[q] == old(s.FooterReferences[q])) && ftrOneAt(s.FooterReferences, old(len(s.FooterReferences)), string(footerType), s.FooterReferences[old(len(s.FooterReferences))].ID) && relResolves(d.documentRelationships.Relationships, s.FooterReferences[old(len(s.FooterReferences))].ID, "http://schemas.openxmlformats.org/officeDocument/2006/relationships/footer", hfFile("footer", footerType))
 // (c) existing reference of the kind (the first one, at k): same list of the same objects, that reference now resolves to the
 //     part's relationship, no other reference changed its id; if the kind was referenced at most once it still is, exactly once
-//@ ensures err == nil ==> forall s *SectionProperties, k int :: {s.FooterReferences[k]} allocated(s) && old(isFirstSect(d.Body.Elements, s)) && old(ftrFirstAt(s.FooterReferences, k, string(footerType))) ==> len(s.FooterReferences) == old(len(s.FooterReferences)) && (forall q int :: 0 <= q && q < len(s.FooterReferences) ==> s.FooterReferences[q] == old(s.FooterReferences[q])) && relResolves(d.documentRelationships.Relationships, s.FooterReferences[k].ID, "http://schemas.openxmlformats.org/officeDocument/2006/relationships/footer", hfFile("footer", footerType))
+//@ ensures err == nil ==> forall s *SectionProperties, k int :: {s.FooterReferences[k]} allocated(s) && old(isFirstSect(d.Body.Elements, s)) && old(ftrFirstAt(s.FooterReferences, k, string(footerType))) ==> s.FooterReferences[k] == old(s.FooterReferences[k]) && len(s.FooterReferences) == old(len(s.FooterReferences)) && (forall q int :: 0 <= q && q < len(s.FooterReferences) ==> s.FooterReferences[q] == old(s.FooterReferences[q]))
+//@ ensures err == nil ==> forall s *SectionProperties, k int :: {s.FooterReferences[k]} allocated(s) && old(isFirstSect(d.Body.Elements, s)) && old(ftrFirstAt(s.FooterReferences, k, string(footerType))) ==> s.FooterReferences[k] == old(s.FooterReferences[k]) && relResolves(d.documentRelationships.Relationships, s.FooterReferences[k].ID, "http://schemas.openxmlformats.org/officeDocument/2006/relationships/footer", hfFile("footer", footerType))
 //@ ensures err == nil ==> forall s *SectionProperties, k int :: {s.FooterReferences[k]} allocated(s) && old(isFirstSect(d.Body.Elements, s)) && old(ftrFirstAt(s.FooterReferences, k, string(footerType))) ==> s.FooterReferences[k] == old(s.FooterReferences[k]) && (forall r *FooterReference :: allocated(r) && r != old(s.FooterReferences[k]) ==> r.ID == old(r.ID))
 //@ ensures err == nil ==> forall s *SectionProperties, k int :: {s.FooterReferences[k]} allocated(s) && old(isFirstSect(d.Body.Elements, s)) && old(ftrFirstAt(s.FooterReferences, k, string(footerType))) && old(ftrAtMostOne(s.FooterReferences, string(footerType))) ==> ftrOneAt(s.FooterReferences, k, string(footerType), s.FooterReferences[k].ID)
 //@ ensures err == nil && (old(noSect(d.Body.Elements)) || (forall s *SectionProperties :: allocated(s) && old(isFirstSect(d.Body.Elements, s)) ==> old(ftrNone(s.FooterReferences, string(footerType))))) ==> forall r *FooterReference :: allocated(r) ==> r.ID == old(r.ID)
@@ -507,7 +511,8 @@ package document
 //@ ensures err == nil ==> forall s *SectionProperties :: {s.HeaderReferences} allocated(s) && old(isFirstSect(d.Body.Elements, s)) && old(hdrNone(s.HeaderReferences, string(headerType))) ==> len(s.HeaderReferences) == old(len(s.HeaderReferences)) + 1 && fresh(s.HeaderReferences[old(len(s.HeaderReferences))]) && (forall q int :: 0 <= q && q < old(len(s.HeaderReferences)) ==> s.HeaderReferences[q] == old(s.HeaderReferences[q])) && hdrOneAt(s.HeaderReferences, old(len(s.HeaderReferences)), string(headerType), s.HeaderReferences[old(len(s.HeaderReferences))].ID) && relResolves(d.documentRelationships.Relationships, s.HeaderReferences[old(len(s.HeaderReferences))].ID, "http://schemas.openxmlformats.org/officeDocument/2006/relationships/header", hfFile("header", headerType))
 // (c) existing reference of the kind (the first one, at k): same list of the same objects, that reference now resolves to the
 //     part's relationship, no other reference changed its id; if the kind was referenced at most once it still is, exactly once
-//@ ensures err == nil ==> forall s *SectionProperties, k int :: {s.HeaderReferences[k]} allocated(s) && old(isFirstSect(d.Body.Elements, s)) && old(hdrFirstAt(s.HeaderReferences, k, string(headerType))) ==> len(s.HeaderReferences) == old(len(s.HeaderReferences)) && (forall q int :: 0 <= q && q < len(s.HeaderReferences) ==> s.HeaderReferences[q] == old(s.HeaderReferences[q])) && relResolves(d.documentRelationships.Relationships, s.HeaderReferences[k].ID, "http://schemas.openxmlformats.org/officeDocument/2006/relationships/header", hfFile("header", headerType))
+//@ ensures err == nil ==> forall s *SectionProperties, k int :: {s.HeaderReferences[k]} allocated(s) && old(isFirstSect(d.Body.Elements, s)) && old(hdrFirstAt(s.HeaderReferences, k, string(headerType))) ==> s.HeaderReferences[k] == old(s.HeaderReferences[k]) && len(s.HeaderReferences) == old(len(s.HeaderReferences)) && (forall q int :: 0 <= q && q < len(s.HeaderReferences) ==> s.HeaderReferences[q] == old(s.HeaderReferences[q]))
+//@ ensures err == nil ==> forall s *SectionProperties, k int :: {s.HeaderReferences[k]} allocated(s) && old(isFirstSect(d.Body.Elements, s)) && old(hdrFirstAt(s.HeaderReferences, k, string(headerType))) ==> s.HeaderReferences[k] == old(s.HeaderReferences[k]) && relResolves(d.documentRelationships.Relationships, s.HeaderReferences[k].ID, "http://schemas.openxmlformats.org/officeDocument/2006/relationships/header", hfFile("header", headerType))
 //@ ensures err == nil ==> forall s *SectionProperties, k int :: {s.HeaderReferences[k]} allocated(s) && old(isFirstSect(d.Body.Elements, s)) && old(hdrFirstAt(s.HeaderReferences, k, string(headerType))) ==> s.HeaderReferences[k] == old(s.HeaderReferences[k]) && (forall r *HeaderFooterReference :: allocated(r) && r != old(s.HeaderReferences[k]) ==> r.ID == old(r.ID))
 //@ ensures err == nil ==> forall s *SectionProperties, k int :: {s.HeaderReferences[k]} allocated(s) && old(isFirstSect(d.Body.Elements, s)) && old(hdrFirstAt(s.HeaderReferences, k, string(headerType))) && old(hdrAtMostOne(s.HeaderReferences, string(headerType))) ==> hdrOneAt(s.HeaderReferences, k, string(headerType), s.HeaderReferences[k].ID)
 //@ ensures err == nil && (old(noSect(d.Body.Elements)) || (forall s *SectionProperties :: allocated(s) && old(isFirstSect(d.Body.Elements, s)) ==> old(hdrNone(s.HeaderReferences, string(headerType))))) ==> forall r *HeaderFooterReference :: allocated(r) ==> r.ID == old(r.ID)
@@ -563,7 +568,8 @@ package document
 //@ ensures err == nil ==> forall s *SectionProperties :: {s.FooterReferences} allocated(s) && old(isFirstSect(d.Body.Elements, s)) && old(ftrNone(s.FooterReferences, string(footerType))) ==> len(s.FooterReferences) == old(len(s.FooterReferences)) + 1 && fresh(s.FooterReferences[old(len(s.FooterReferences))]) && (forall q int :: 0 <= q && q < old(len(s.FooterReferences)) ==> s.FooterReferences[q] == old(s.FooterReferences[q])) && ftrOneAt(s.FooterReferences, old(len(s.FooterReferences)), string(footerType), s.FooterReferences[old(len(s.FooterReferences))].ID) && relResolves(d.documentRelationships.Relationships, s.FooterReferences[old(len(s.FooterReferences))].ID, "http://schemas.openxmlformats.org/officeDocument/2006/relationships/footer", hfFile("footer", footerType))
 // (c) existing reference of the kind (the first one, at k): same list of the same objects, that reference now resolves to the
 //     part's relationship, no other reference changed its id; if the kind was referenced at most once it still is, exactly once
-//@ ensures err == nil ==> forall s *SectionProperties, k int :: {s.FooterReferences[k]} allocated(s) && old(isFirstSect(d.Body.Elements, s)) && old(ftrFirstAt(s.FooterReferences, k, string(footerType))) ==> len(s.FooterReferences) == old(len(s.FooterReferences)) && (forall q int :: 0 <= q && q < len(s.FooterReferences) ==> s.FooterReferences[q] == old(s.FooterReferences[q])) && relResolves(d.documentRelationships.Relationships, s.FooterReferences[k].ID, "http://schemas.openxmlformats.org/officeDocument/2006/relationships/footer", hfFile("footer", footerType))
+//@ ensures err == nil ==> forall s *SectionProperties, k int :: {s.FooterReferences[k]} allocated(s) && old(isFirstSect(d.Body.Elements, s)) && old(ftrFirstAt(s.FooterReferences, k, string(footerType))) ==> s.FooterReferences[k] == old(s.FooterReferences[k]) && len(s.FooterReferences) == old(len(s.FooterReferences)) && (forall q int :: 0 <= q && q < len(s.FooterReferences) ==> s.FooterReferences[q] == old(s.FooterReferences[q]))
+//@ ensures err == nil ==> forall s *SectionProperties, k int :: {s.FooterReferences[k]} allocated(s) && old(isFirstSect(d.Body.Elements, s)) && old(ftrFirstAt(s.FooterReferences, k, string(footerType))) ==> s.FooterReferences[k] == old(s.FooterReferences[k]) && relResolves(d.documentRelationships.Relationships, s.FooterReferences[k].ID, "http://schemas.openxmlformats.org/officeDocument/2006/relationships/footer", hfFile("footer", footerType))
 //@ ensures err == nil ==> forall s *SectionProperties, k int :: {s.FooterReferences[k]} allocated(s) && old(isFirstSect(d.Body.Elements, s)) && old(ftrFirstAt(s.FooterReferences, k, string(footerType))) ==> s.FooterReferences[k] == old(s.FooterReferences[k]) && (forall r *FooterReference :: allocated(r) && r != old(s.FooterReferences[k]) ==> r.ID == old(r.ID))
 //@ ensures err == nil ==> forall s *SectionProperties, k int :: {s.FooterReferences[k]} allocated(s) && old(isFirstSect(d.Body.Elements, s)) && old(ftrFirstAt(s.FooterReferences, k, string(footerType))) && old(ftrAtMostOne(s.FooterReferences, string(footerType))) ==> ftrOneAt(s.FooterReferences, k, string(footerType), s.FooterReferences[k].ID)
 //@ ensures err == nil && (old(noSect(d.Body.Elements)) || (forall s *SectionProperties :: allocated(s) && old(isFirstSect(d.Body.Elements, s)) ==> old(ftrNone(s.FooterReferences, string(footerType))))) ==> forall r *FooterReference :: allocated(r) ==> r.ID == old(r.ID)
